@@ -22,6 +22,7 @@ def gen(tier, seed, tol=TOL, calls=None, tag="gjk"):
     rng = random.Random(seed)
     scenes = NW.gen_scenes(rng, 700 if tier == "quick" else 12000)
     scenes += NW.general_scenes(random.Random(seed * 13 + 1), 120 if tier == "quick" else 3000)      # general relative orientations (float tier)
+    scenes += NW.vertex_to_side_scenes(random.Random(seed * 13 + 4), 60 if tier == "quick" else 1500)   # a vertex facing a curved side
     recs, meta, n = [], {}, 0
     calls = calls or [("gjk", call_gjk(None)), ("gjk_inf", call_gjk(float("inf")))]
     for A, B in scenes:
